@@ -520,8 +520,13 @@ func runC13(r *Report, tier string) {
 			for _, pr := range [][2]int64{{5, 6}, {6, 5}} {
 				a := fmt.Sprintf("call<%%F>(*$0.Protected, iface<int64>(%d))", pr[0])
 				b := fmt.Sprintf("call<%%F>(*$0.Unprotected, iface<int64>(%d))", pr[1])
-				ma := len(fs.matchAll([]factPat{fp("!" + strings.Replace(a, "%F", "%", 1))}, nil)) > 0
-				mb := len(fs.matchAll([]factPat{fp("!" + strings.Replace(b, "%F", "%", 1))}, nil)) > 0
+				// the presence test is a boolean in-package lookup or the
+				// found-flag of one
+				absent := func(pat string) bool {
+					pat = strings.Replace(pat, "%F", "%", 1)
+					return len(fs.matchAll([]factPat{fp("!" + pat)}, nil)) > 0 || len(fs.matchAll([]factPat{fp("!res<1>(" + pat + ")")}, nil)) > 0
+				}
+				ma, mb := absent(a), absent(b)
 				if !ma && !mb {
 					why = fmt.Sprintf("the IV check can succeed with label %d protected and label %d unprotected", pr[0], pr[1])
 				}
